@@ -75,6 +75,68 @@ impl From<SvcErr> for Response<BoxBody> {
     }
 }
 
+/// Per stream: has the client received the complete response? plus wakers of handlers waiting for it.
+#[derive(Default)]
+struct ClientDone {
+    done: Vec<bool>,
+    waiters: Vec<Vec<std::task::Waker>>,
+}
+
+struct WaitFor(Rc<RefCell<ClientDone>>, usize);
+impl Future for WaitFor {
+    type Output = ();
+    fn poll(self: Pin<&mut Self>, cx: &mut Context<'_>) -> Poll<()> {
+        let mut c = self.0.borrow_mut();
+        if c.done[self.1] {
+            Poll::Ready(())
+        } else {
+            let w = cx.waker().clone();
+            c.waiters[self.1].push(w);
+            Poll::Pending
+        }
+    }
+}
+
+/// A service that is ready for one call at a time.
+struct OneAtATime<S> {
+    inner: S,
+    /// off = never busy (plain pass-through)
+    limit: bool,
+    busy: Rc<std::cell::Cell<bool>>,
+    waker: Rc<RefCell<Option<std::task::Waker>>>,
+}
+
+impl<S, Req> Service<Req> for OneAtATime<S>
+where
+    S: Service<Req>,
+    S::Future: 'static,
+{
+    type Response = S::Response;
+    type Error = S::Error;
+    type Future = Pin<Box<dyn Future<Output = Result<S::Response, S::Error>>>>;
+    fn poll_ready(&self, cx: &mut Context<'_>) -> Poll<Result<(), Self::Error>> {
+        if self.limit && self.busy.get() {
+            *self.waker.borrow_mut() = Some(cx.waker().clone());
+            Poll::Pending
+        } else {
+            self.inner.poll_ready(cx)
+        }
+    }
+    fn call(&self, req: Req) -> Self::Future {
+        self.busy.set(true);
+        let fut = self.inner.call(req);
+        let (busy, waker) = (self.busy.clone(), self.waker.clone());
+        Box::pin(async move {
+            let r = fut.await;
+            busy.set(false);
+            if let Some(w) = waker.borrow_mut().take() {
+                w.wake();
+            }
+            r
+        })
+    }
+}
+
 struct YieldOnce(bool);
 impl Future for YieldOnce {
     type Output = ();
@@ -111,7 +173,7 @@ fn make_body(idx: usize, st: &St, read: &[u8]) -> RespBody {
     }
 }
 
-async fn handle(mut req: Request, specs: Rc<Vec<St>>, rec: Rc<RefCell<Vec<HRec>>>) -> Result<Response<RespBody>, SvcErr> {
+async fn handle(mut req: Request, specs: Rc<Vec<St>>, rec: Rc<RefCell<Vec<HRec>>>, cdone: Rc<RefCell<ClientDone>>) -> Result<Response<RespBody>, SvcErr> {
     let idx: usize = req.path().trim_start_matches("/s").parse().expect("path /s<idx>");
     let st = &specs[idx];
     rec.borrow_mut()[idx].started = true;
@@ -141,6 +203,9 @@ async fn handle(mut req: Request, specs: Rc<Vec<St>>, rec: Rc<RefCell<Vec<HRec>>
     }
     for _ in 0..st.yields {
         YieldOnce(false).await;
+    }
+    if let Some(other) = st.wait_for {
+        WaitFor(cdone.clone(), other).await;
     }
     if st.body == Body::SvcErr {
         return Err(SvcErr);
@@ -278,6 +343,7 @@ async fn drive(scn: &Scn, ch: &mut Chooser) -> Exec {
     let n = scn.streams.len();
     let specs = Rc::new(scn.streams.clone());
     let rec = Rc::new(RefCell::new(vec![HRec::default(); n]));
+    let cdone = Rc::new(RefCell::new(ClientDone { done: vec![false; n], waiters: vec![vec![]; n] }));
 
     // ---- the real server connection
     let (client_io, server_io) = tokio::io::duplex(1 << 22);
@@ -291,8 +357,18 @@ async fn drive(scn: &Scn, ch: &mut Chooser) -> Exec {
     if let Some(w) = scn.srv_conn_win {
         b = b.h2_initial_connection_window_size(w);
     }
-    let (s2, r2) = (specs.clone(), rec.clone());
-    let factory = b.h2(fn_service(move |req: Request| Counted(Box::pin(handle(req, s2.clone(), r2.clone())))));
+    let (s2, r2, c2) = (specs.clone(), rec.clone(), cdone.clone());
+    let one_at_a_time = scn.one_at_a_time;
+    let factory = b.h2(actix_service::fn_factory(move || {
+        let (s2, r2, c2) = (s2.clone(), r2.clone(), c2.clone());
+        async move {
+            let inner = fn_service(move |req: Request| Counted(Box::pin(handle(req, s2.clone(), r2.clone(), c2.clone()))));
+            let inner = inner.new_service(()).await?;
+            let busy = Rc::new(std::cell::Cell::new(false));
+            // when the limit is off the wrapper never reports busy
+            Ok::<_, ()>(OneAtATime { inner, limit: one_at_a_time, busy, waker: Rc::new(RefCell::new(None)) })
+        }
+    }));
     let svc = factory.new_service(()).await.expect("new_service");
     let wire_log = Rc::new(RefCell::new(Vec::<String>::new()));
     let conn = svc.call((crate::wire::Wire::new(server_io, wire_log.clone()), None));
@@ -596,6 +672,11 @@ async fn drive(scn: &Scn, ch: &mut Chooser) -> Exec {
                             r.obs.end = End::Clean;
                             log.push(format!("step {steps}: s{i} END_STREAM"));
                             progress = true;
+                            let mut c = cdone.borrow_mut();
+                            c.done[i] = true;
+                            for w in c.waiters[i].drain(..) {
+                                w.wake();
+                            }
                         }
                         Poll::Pending => {}
                     }
